@@ -165,7 +165,7 @@ func (c *c16YieldConn) Write(b []byte) (int, error) {
 func HarnessC16ConcurrentSend(a []int) {
 	n := a[0]
 	conn := &c16YieldConn{}
-	sock := &TunnelSocket{conn, nil}
+	sock := verifMkTunnelSocket(conn, nil)
 	var want [][]byte
 	var vals []ServicePackable
 	for i := 0; i < n; i++ {
@@ -234,7 +234,7 @@ func HarnessC16Close(a []int) {
 	var sock Socket
 	if udp {
 		conn := &net.UDPConn{}
-		sock = &RouterSocket{conn, nil, inbound}
+		sock = verifMkRouterSocket(conn, nil, inbound)
 		go func() {
 			serveUDPSocket(conn, nil, inbound)
 			returned = true
@@ -242,7 +242,7 @@ func HarnessC16Close(a []int) {
 	} else {
 		verifStream(stream, 0, 0)
 		conn := &net.TCPConn{}
-		sock = &TunnelSocket{conn, inbound}
+		sock = verifMkTunnelSocket(conn, inbound)
 		go func() {
 			serveTCPSocket(conn, nil, inbound)
 			returned = true
@@ -281,7 +281,7 @@ func HarnessC16Close(a []int) {
 // header-total-length bytes to the network.
 func HarnessC15SendRouter(a []int) {
 	v := c15Value(a)
-	sock := &RouterSocket{&net.UDPConn{}, &net.UDPAddr{Port: 3671}, nil}
+	sock := verifMkRouterSocket(&net.UDPConn{}, &net.UDPAddr{Port: 3671}, nil)
 	err := sock.Send(v)
 	verifAssert("C15.send.ok", err == nil)
 	verifAssert("C15.send.one_write", verifNetWrites() == 1)
